@@ -21,8 +21,8 @@ sys.path.insert(0, ROOT)
 from vf.core import Ctx, Result, sig_key, jsonable   # noqa: E402
 
 KNOWN = os.path.join(ROOT, 'known_findings.json')
-EVIDENCE_DIR = os.path.join(ROOT, 'evidence')
-REPLAY_DIR = os.path.join(ROOT, 'replays')
+EVIDENCE_DIR = os.environ.get('VERIF_EVIDENCE_DIR') or os.path.join(ROOT, 'evidence')
+REPLAY_DIR = os.environ.get('VERIF_REPLAY_DIR') or os.path.join(ROOT, 'replays')
 SCHEMA = '/root/.vp/EVIDENCE.schema.json'
 SCHEMA_COPY = os.path.join(ROOT, 'vf', 'EVIDENCE.schema.json')
 
